@@ -1434,6 +1434,17 @@ def oracle_C10(run):
                                                    ('OPEN', 'HALF_CLOSED_LOCAL', 'HALF_CLOSED_REMOTE')
                                                    for s_, v in sb['streams'].items()) else 'new-stream'
                     out.append(fail('inbound-streams-exceed-local-limit', i, via=via))
+            # the limit is about opening streams: a delivery in which no frame opens one is never refused for it
+            if r[0] == 'exc' and r[1] == 'TooManyStreamsError':
+                data = obs.get('xfer_data') if o == 'xfer' else op['data']
+                rfs = raw_frames(data)
+                if rfs and before_buf_empty(run, i, c):
+                    client_side = run.world.conns[c].client
+                    opens = any(f['type'] == wire.HEADERS and f['sid'] > sb['hi_in'] and (f['sid'] % 2 == 1) != client_side
+                                for f in rfs)
+                    if not opens:
+                        out.append(fail('limit-applied-to-a-frame-that-opens-nothing', i,
+                                        frames=[(f['type'], f['sid']) for f in rfs][:6], hi_in=sb['hi_in']))
     return out
 
 
